@@ -9,6 +9,8 @@ import os
 import pickle
 import re
 import shutil
+import signal
+import time
 import subprocess
 import sys
 import tempfile
@@ -27,7 +29,19 @@ PROP_FILE = LEAN / "BlackIt/Properties/C06.lean"
 FILES = ["calibration_params.json", "scheduler_pickled.pickle", "loss_function_pickled.pickle", "calibration_results.csv", "series_samp.h5"]
 CHILD = VERIF / "harness/children/save_child.py"
 PY = sys.executable
-KNOWN_SIGS = {f"C06/json/hybrid:{f}:{st}" for f in FILES[1:] for st in ("untouched", "cut")}
+KNOWN_SIGS = {f"C06/json/hybrid@openat:{f}" for f in FILES[1:]} | {"C06/json/hybrid@pwrite64:series_samp.h5", "C06/json/hybrid@prefix:calibration_results.csv"}
+
+
+class State(tuple):
+    """positional arguments of save_calibrator_state, plus the keyword arguments the calibrator passes"""
+
+    def __new__(cls, a, k=None):
+        o = super().__new__(cls, a)
+        o.kw = dict(k or {})
+        return o
+
+    def __reduce__(self):
+        return (State, (tuple(self), self.kw))
 
 
 def capture_states(cfg, batches):
@@ -36,7 +50,7 @@ def capture_states(cfg, batches):
 
     captured = []
     orig = calmod.save_calibrator_state
-    calmod.save_calibrator_state = lambda path, *a: captured.append(a)
+    calmod.save_calibrator_state = lambda path, *a, **k: captured.append(State(a, k))
     try:
         with contextlib.redirect_stdout(io.StringIO()), warnings.catch_warnings():
             warnings.simplefilter("ignore")
@@ -60,7 +74,7 @@ def clean_folder(states):
     from black_it.utils import json_pandas_checkpointing as jp
     d = tempfile.mkdtemp(prefix="vpc06")
     for a in states:
-        jp.save_calibrator_state(d, *a)
+        jp.save_calibrator_state(d, *a, **getattr(a, 'kw', {}))
     return d
 
 
@@ -110,32 +124,56 @@ def classify(folder, L1, L2):
 
 
 def strace_events(folder, statefile, backend="json", inject=None, names=None):
+    """system calls of one real save in a child process that touch anything inside `folder` (whatever the file is called: temporary
+    files and renames are seen too). Events are (syscall, file, truncating-open?, index of this call among the process's calls of
+    that name); `inject=(syscall, index)` SIGKILLs the child on entry of exactly that call."""
     names = names or FILES
     out = tempfile.mktemp(prefix="vptrace")
-    cmd = ["strace", "-f", "-qq", "-o", out, "-e", "trace=openat,write,pwrite64,ftruncate,rename,unlink"]
-    for n in names:
-        cmd += ["-P", os.path.join(folder, n)]
-    if inject:
-        cmd += ["-e", f"inject={inject[0]}:signal=KILL:when={inject[1]}"]
-    cmd += [PY, str(CHILD), backend, folder, statefile]
-    env = dict(os.environ, PYTHONPATH=str(VERIF / "harness"))
-    p = subprocess.run(cmd, capture_output=True, text=True, env=env, timeout=300)
+    env = dict(os.environ, PYTHONPATH=str(VERIF / "harness"), PYTHONDONTWRITEBYTECODE="1")
+    child = subprocess.Popen([PY, str(CHILD), backend, folder, statefile, "wait"], stdout=subprocess.PIPE, stderr=subprocess.DEVNULL, text=True, env=env)
+    tracer = None
+    try:
+        if child.stdout.readline().strip() != "READY":
+            raise HarnessError("save child did not get ready")
+        t0 = time.time()
+        while open(f"/proc/{child.pid}/stat").read().rsplit(")", 1)[1].split()[0] != "T":
+            if time.time() - t0 > 30:
+                raise HarnessError("save child did not stop")
+            time.sleep(0.002)
+        cmd = ["strace", "-f", "-qq", "-y", "-o", out, "-e", "trace=openat,write,pwrite64,ftruncate,rename,renameat,renameat2,unlink,unlinkat,link,linkat"]
+        if inject:
+            cmd += ["-e", f"inject={inject[0]}:signal=KILL:when={inject[1]}"]
+        tracer = subprocess.Popen(cmd + ["-p", str(child.pid)], stdout=subprocess.DEVNULL, stderr=subprocess.DEVNULL)
+        t0 = time.time()
+        while "TracerPid:\t0\n" in open(f"/proc/{child.pid}/status").read():
+            if time.time() - t0 > 30 or tracer.poll() is not None:
+                raise HarnessError("strace could not attach to the save child")
+            time.sleep(0.002)
+        os.kill(child.pid, signal.SIGCONT)
+        stdout = child.stdout.read()
+        child.wait(timeout=300)
+        tracer.wait(timeout=60)
+    finally:
+        for pr in (child, tracer):
+            if pr is not None and pr.poll() is None:
+                pr.kill(); pr.wait()
+    p = type("R", (), {"stdout": stdout})
     events = []
-    cur = None
+    counts = {}
+    key = folder.rstrip("/") + "/"
     try:
         for line in open(out):
             m = re.match(r"\d+\s+(\w+)\((.*)", line)
             if not m:
                 continue
             nm, rest = m.group(1), m.group(2)
-            if nm in ("openat",):
-                f = next((n for n in names if n in rest), None)
-                if f is None:
-                    continue
-                cur = f
-                events.append((nm, f, "O_TRUNC" in rest))
-            elif nm in ("write", "pwrite64", "ftruncate", "rename", "unlink"):
-                events.append((nm, cur, False))
+            counts[nm] = counts.get(nm, 0) + 1
+            if key not in rest:
+                continue
+            paths = re.findall(re.escape(key) + r"([^\">,)]*)", rest)
+            base = paths[0] if paths else "?"
+            f = next((n for n in names if base.startswith(n)), base)
+            events.append((nm, f, "O_TRUNC" in rest, counts[nm], base))
     finally:
         with contextlib.suppress(FileNotFoundError):
             os.remove(out)
@@ -149,7 +187,7 @@ def run_json_crashes(chk: Check, label, prev_states, new_state, cfg_info):
     if full is None:
         full = tempfile.mkdtemp(prefix="vpc06"); shutil.rmtree(full); shutil.copytree(base, full)
         from black_it.utils import json_pandas_checkpointing as jp
-        jp.save_calibrator_state(full, *new_state)
+        jp.save_calibrator_state(full, *new_state, **getattr(new_state, 'kw', {}))
     statefile = tempfile.mktemp(prefix="vpc06state")
     pickle.dump(new_state, open(statefile, "wb"))
     work = []
@@ -165,31 +203,37 @@ def run_json_crashes(chk: Check, label, prev_states, new_state, cfg_info):
             raise HarnessError("baseline strace of a real save produced no events")
         # the order of file operations must be the model's: the five files in order, each opened before it is written
         order = []
-        for nm, f, _ in events:
+        for nm, f, _, _, _ in events:
             if f not in order:
                 order.append(f)
         if order != FILES:
             chk.disagree("file-operation order of save_calibrator_state != model (five files in fixed order)", {"observed_order": order})
-        chk.extra.setdefault("traces", []).append({"label": label, "events": [f"{nm}:{f}" for nm, f, _ in events]})
-        counts = {}
-        jobs = []
-        for g, (nm, f, _) in enumerate(events):
-            counts[nm] = counts.get(nm, 0) + 1
-            jobs.append((g, nm, counts[nm], f))
+        foreign = sorted({f"{nm}:{b}" for nm, f, _, _, b in events if b not in FILES or nm not in ("openat", "write", "pwrite64", "ftruncate")})
+        if foreign:
+            chk.disagree("save_calibrator_state performs file operations the model does not have (model: each of the five files is opened in place and written)",
+                         {"operations": foreign[:10]})
+        chk.extra.setdefault("traces", []).append({"label": label, "events": [f"{nm}:{b}" for nm, f, _, _, b in events]})
+        jobs = [(g, nm, j, f) for g, (nm, f, _, j, _) in enumerate(events)]
 
         def one(job):
             g, nm, j, f = job
             d = tempfile.mkdtemp(prefix="vpc06k"); shutil.rmtree(d); shutil.copytree(base, d)
             ev, saved = strace_events(d, statefile, inject=(nm, j))
-            return job, d, len(ev), saved
+            # the kill must have landed on the intended call: the folder operations seen are the baseline's first g (+ the killed one)
+            want = [(e[0], e[4]) for e in events[:g + 1]]
+            got = [(e[0], e[4]) for e in ev]
+            return job, d, got in (want, want[:-1]), saved
 
         with ThreadPoolExecutor(max_workers=12) as ex:
             results = list(ex.map(one, jobs))
         reqs, meta = [], []
-        for (g, nm, j, f), d, nev, saved in results:
+        for (g, nm, j, f), d, landed, saved in results:
             work.append(d)
             if saved:
                 chk.disagree("injected kill did not stop the child", {"event": [g, nm, j, f]})
+                continue
+            if not landed:
+                chk.count("kill:not-at-intended-call(skipped)")
                 continue
             vec = [file_state(d, base if have_prev else None, full, L2, name) for name in FILES]
             outcome, detail = classify(d, L1, L2)
@@ -207,7 +251,7 @@ def run_json_crashes(chk: Check, label, prev_states, new_state, cfg_info):
                              {"file_states": vec, "impl": outcome, "model": ans, "detail": detail, "event": [g, nm, f]})
             if outcome == "hybrid":
                 k = next((i for i, v in enumerate(vec) if v not in "DS"), 4)
-                sig = f"C06/json/hybrid:{FILES[k]}:{'untouched' if vec[k] == 'P' else 'cut'}"
+                sig = f"C06/json/hybrid@{nm}:{f}"
                 chk.fail(f"restore after a kill at {nm} on {f} ({label}) returns a mixture: {detail}",
                          {"case": {"kind": "kill", "label": label, "event": [g, nm, f], "file_states": vec}}, signature=sig)
         return base, full, r_old, r_new, L1, L2
@@ -245,7 +289,7 @@ def run_json_truncations(chk: Check, base, full, r_old, r_new, L1, L2, step):
             chk.disagree("restore outcome != model for a byte-level partial write", {"file": name, "bytes": b, "file_states": vec, "impl": outcome, "model": ans, "detail": detail})
         if outcome == "hybrid":
             k = next((i for i, v in enumerate(vec) if v not in "DS"), 4)
-            sig = f"C06/json/hybrid:{FILES[k]}:{'untouched' if vec[k] == 'P' else 'cut'}"
+            sig = f"C06/json/hybrid@prefix:{name}"
             chk.fail(f"restore with {name} cut after {b}/{n} bytes returns a mixture: {detail}",
                      {"case": {"kind": "trunc", "file": name, "bytes": b, "file_states": vec}}, signature=sig)
 
